@@ -46,7 +46,9 @@ def main():
             },
             'level_note': 'Trusted base / assumptions: ' + '; '.join(spec.get('assumptions', [])) +
                           ' | Outside the claim: ' + spec.get('outside', ''),
-            'technique': spec.get('technique', ''),
+            'technique': spec.get('technique', '') + ('' if 'twin' not in engines or 'twin' in spec.get('technique', '') else
+                                                      '; the DBM model those harnesses run against is validated by a native twin run '
+                                                      'against the real sqlite DBM (sampling, labelled as validation, not a solver verdict)'),
         })
     claimed = {c['property_id'] for c in checks}
     na = []
